@@ -26,6 +26,8 @@ RULE = ("decode(s, L, G, v, mode, check) on: pristine walks; the walk with its i
 
 REASONS = ("branch", "single", "dead", "symbol")
 FOREIGN = ["N", "a", "c", "-", "U", " ", "É", "中", "\n", "\t", "\r", "AC", ""]
+# symbols that break naive handling: format / escape characters, NUL, and code points that alias A, C, G, T modulo 128 / 256 / 65536
+TRICKY = ["%", "%s", "{", "}", "\\", "\x00", "'", '"'] + [chr(ord(b) + off) for b in "ACGT" for off in (128, 256, 512, 65536)]
 
 
 def setup(ctx):
@@ -175,6 +177,12 @@ def generate(ctx):
                 p = rng.randrange(len(w) + 1)
                 f = rng.choice(FOREIGN[:11])
                 strings.append(("foreign", w[:p] + f + w[p + 1:]))
+            v = start
+            for i, ch in enumerate(w):           # a tricky symbol at an out-degree-1 position and at a branching position
+                d = int((acc[v] >= 0).sum())
+                if (d == 1 and rng.random() < 0.5) or (d > 1 and rng.random() < 0.15):
+                    strings.append(("tricky-symbol", w[:i] + rng.choice(TRICKY) + w[i + 1:]))
+                v = int(acc[v, "ACGT".index(ch)])
             for ws in ("\n", "\r\n", " ", "\t"):
                 strings.append(("foreign-tail", w + ws))          # a walk followed by white space is not a walk
             # walk into a dead vertex, if the graph has one reachable
@@ -274,7 +282,7 @@ def floors(agg, tier):
         if c.get(mode + "|accepted", 0) < 200:
             out.append("%s accepted walks %d < 200" % (mode, c.get(mode + "|accepted", 0)))
     for name, need in (("edit sequences (same accessor object overwritten in place)", 100), ("check passed as numpy.str_", 500),
-                       ("string|long walk", 20), ("string|foreign-tail", 1000), ("check|empty-string", 500), ("accessor layout|i16", 300)):
+                       ("string|long walk", 20), ("string|foreign-tail", 1000), ("check|empty-string", 500), ("string|tricky-symbol", 2000), ("accessor layout|i16", 300)):
         if c.get(name, 0) < need:
             out.append("%s observed %d < %d" % (name, c.get(name, 0), need))
     if not any(k.startswith("probe-hits:decode:raise") for k in agg["monitors"]):
